@@ -39,3 +39,10 @@ Example ex_C10 :
       (e_rules (run cf (load_rules cf init_state fs0 false) [(fs1, 5%N); (fs2, 6%N)]))
   = [(s "b", s "role:dir")].
 Proof. vm_compute. reflexivity. Qed.
+
+(* the change detectors have the shape the model follows (strict mtime comparisons; newest stamp
+   over the directory and all its entries; a missing file reads as empty): read off the source *)
+From OP Require Import Gen.GPolicy.
+Theorem C10_detector_shapes : dir_updated_shape_known = true /\ read_cached_shape_known = true.
+Proof. split; reflexivity. Qed.
+Print Assumptions C10_detector_shapes.
